@@ -1,7 +1,7 @@
 (* C10 — Card words follow the documented bit layout; exactly 52 words are cards.
    Only statements here; proofs are in Proofs/C10.v. *)
 From Coq Require Import String.
-From CKC Require Import Base.Prelude Spec.Layout Model.Card Proofs.CardFacts Proofs.C10.
+From CKC Require Import Base.Prelude Spec.Layout Model.Card Proofs.CardFacts Proofs.CreateFacts Proofs.C10.
 From CKC Require Import Gen.Consts Gen.Enums Gen.Maps Gen.Decks.
 Open Scope N_scope.
 
